@@ -53,10 +53,8 @@ import (
 	"go/types"
 	"log"
 	"os"
-	"reflect"
 	"runtime"
 	"slices"
-	"sync/atomic"
 	_ "unsafe"
 
 	"golang.org/x/tools/go/ssa"
@@ -252,7 +250,7 @@ func visitInstr(fr *frame, instr ssa.Instruction) continuation {
 		panic(targetPanic{fr.get(instr.X)})
 
 	case *ssa.Send:
-		fr.get(instr.Chan).(chan value) <- fr.get(instr.X)
+		chanSend(fr.get(instr.Chan), fr.get(instr.X))
 
 	case *ssa.Store:
 		addr := fr.get(instr.Addr)
@@ -288,14 +286,10 @@ func visitInstr(fr *frame, instr ssa.Instruction) continuation {
 
 	case *ssa.Go:
 		fn, args := prepareCall(fr, &instr.Call)
-		atomic.AddInt32(&fr.i.goroutines, 1)
-		go func() {
-			call(fr.i, nil, instr.Pos(), fn, args)
-			atomic.AddInt32(&fr.i.goroutines, -1)
-		}()
+		spawn(fr.i, fn, args)
 
 	case *ssa.MakeChan:
-		fr.env[instr] = make(chan value, asInt64(fr.get(instr.Size)))
+		fr.env[instr] = makeChan(int(asInt64(fr.get(instr.Size))))
 
 	case *ssa.Alloc:
 		var addr *value
@@ -426,40 +420,21 @@ func visitInstr(fr *frame, instr ssa.Instruction) continuation {
 		log.Fatal("unreachable") // phis are processed at block entry
 
 	case *ssa.Select:
-		var cases []reflect.SelectCase
-		if !instr.Blocking {
-			cases = append(cases, reflect.SelectCase{
-				Dir: reflect.SelectDefault,
-			})
-		}
-		for _, state := range instr.States {
-			var dir reflect.SelectDir
-			if state.Dir == types.RecvOnly {
-				dir = reflect.SelectRecv
-			} else {
-				dir = reflect.SelectSend
-			}
-			var send reflect.Value
+		chans := make([]value, len(instr.States))
+		sends := make([]value, len(instr.States))
+		for i, state := range instr.States {
+			chans[i] = fr.get(state.Chan)
 			if state.Send != nil {
-				send = reflect.ValueOf(fr.get(state.Send))
+				sends[i] = fr.get(state.Send)
 			}
-			cases = append(cases, reflect.SelectCase{
-				Dir:  dir,
-				Chan: reflect.ValueOf(fr.get(state.Chan)),
-				Send: send,
-			})
 		}
-		chosen, recv, recvOk := reflect.Select(cases)
-		if !instr.Blocking {
-			chosen-- // default case should have index -1.
-		}
+		chosen, recvOk, recv := selectOp(instr, chans, sends)
 		r := tuple{chosen, recvOk}
 		for i, st := range instr.States {
 			if st.Dir == types.RecvOnly {
 				var v value
 				if i == chosen && recvOk {
-					// No need to copy since send makes an unaliased copy.
-					v = recv.Interface().(value)
+					v = recv
 				} else {
 					v = zero(st.Chan.Type().Underlying().(*types.Chan).Elem())
 				}
